@@ -1,6 +1,7 @@
 /-
 C13 — Event hooks fire exactly at their registered occasions, times and markets.
 -/
+import PamsLemmas.SourceTie
 import PamsModel.Hooks
 import PamsLemmas.RunnerLemmas
 
@@ -139,5 +140,20 @@ theorem nonvacuous :
     (dispatch [h1, h2] .marketBefore 5 (some (2, true))).map (·.id) = [1, 0] ∧
     (dispatch [h1, h2] .marketBefore 6 (some (2, false))).map (·.id) = [] ∧
     register [h1, h2] h1 = none := by decide
+
+/-- (T) the time source of every dispatch site in the current sources: market time for before-order /
+before-cancel / market steps, log time for after-order / after-cancel / after-execution, session
+start for before-session, `start + steps - 1` for after-session -/
+theorem source_trigger_times :
+    PamsGen.triggerTimes =
+      [("_trigger_event_before_order", "self.id2market[order.market_id].get_time()"),
+       ("_trigger_event_after_order", "order_log.time"),
+       ("_trigger_event_before_cancel", "self.id2market[cancel.market_id].get_time()"),
+       ("_trigger_event_after_cancel", "cancel_log.cancel_time"),
+       ("_trigger_event_after_execution", "execution_log.time"),
+       ("_trigger_event_before_session", "session.session_start_time"),
+       ("_trigger_event_after_session", "session.session_start_time + session.iteration_steps - 1"),
+       ("_trigger_event_before_step_for_market", "market.get_time()"),
+       ("_trigger_event_after_step_for_market", "market.get_time()")] := by decide
 
 end Pams.C13
